@@ -77,6 +77,19 @@ def check_range(spec, ctx):
         eff_step = step
     nonrep = eff_step not in (1.0, 0.5, 2.5, 7.0, 0.25)
     v, _ = ctx.call(spec, f"{spec['ctor']}(start={start}, stop={stop}, step={step})", make_dim, spec)
+    # the same constructor call written positionally (documented orders) and with numpy scalars
+    from soundevent import arrays as _arrays
+
+    alt = None
+    if spec["ctor"] == "range_dim":
+        alt = [_arrays.create_range_dim("x", start, stop, step), _arrays.create_range_dim("x", np.float64(start), np.float64(stop), step=np.float64(step))]
+    elif spec["ctor"] == "time_step":
+        alt = [_arrays.create_time_range(start, stop, step), _arrays.create_time_range(start_time=np.float64(start), end_time=np.float64(stop), step=np.float64(step))]
+    elif spec["ctor"] == "frequency":
+        alt = [_arrays.create_frequency_range(start, stop, step), _arrays.create_frequency_range(low_freq=np.float64(start), high_freq=np.float64(stop), step=np.float64(step))]
+    for a_ in alt or []:
+        if not (np.array_equal(np.asarray(a_.data), np.asarray(v.data)) and a_.dims == v.dims and dict(a_.attrs) == dict(v.attrs)):
+            ctx.fail(f"{spec['ctor']} written positionally / with numpy scalars gives another axis than the keyword call", spec, None, None, kind="call_style")
     coords = np.asarray(v.data, dtype=float)
     ctx.case(spec, nontrivial=(nonrep and n >= 100) or n == 0 or phi > 0, labels=[spec["ctor"], "whole" if whole else ("n+phi" if phi else "rounded"), "n=0" if n == 0 else ("n<100" if n < 100 else "n>=100"), "nonrep" if nonrep else "rep"], out={"len": int(coords.size)})
     if v.dims != ("x",) and spec["ctor"].startswith("range_dim"):
@@ -166,7 +179,21 @@ def check_lookup(spec, ctx):
     v = float(v)
     exp = ref_lookup(coords, v)
     ctx.case(spec, nontrivial=k in ("on", "ulp_below", "ulp_above", "first", "last", "just_above_last"), labels=[k, spec["built"], "raise" if spec["raise_error"] else "clamp", "inrange" if isinstance(exp, int) else exp])
+    def same_answer(call_a, call_b):
+        out = []
+        for c_ in (call_a, call_b):
+            try:
+                out.append(("ok", int(c_())))
+            except KeyError:
+                out.append(("KeyError",))
+        return out[0] == out[1], out
+
     for raise_error in (spec["raise_error"], not spec["raise_error"]):
+        # written positionally (documented order: arr, dim, value, raise_error) and with a numpy scalar value
+        for how, alt in (("positionally", lambda: arrays.get_coord_index(arr, "time", v, raise_error)), ("with a numpy scalar", lambda: arrays.get_coord_index(arr, "time", np.float64(v), raise_error=raise_error))):
+            ok_, both = same_answer(lambda: arrays.get_coord_index(arr, "time", v, raise_error=raise_error), alt)
+            if not ok_:
+                ctx.fail(f"get_coord_index({v!r}, raise_error={raise_error}) written {how} answers {both[1]}, the keyword call {both[0]}", spec, both[1], both[0], kind="call_style")
         try:
             got = arrays.get_coord_index(arr, "time", v, raise_error=raise_error)
         except KeyError:
